@@ -986,7 +986,7 @@ func (g *gen) query() *Chain {
 	}
 	c.Fin = fins[g.weighted("fin", fw...)]
 	grouped := false
-	if c.Fin != "pluck" && c.Fin != "first" && c.Fin != "last" && len(c.Joins) == 0 && sc.table != "owners" && g.pct("group", 12) {
+	if c.Fin != "pluck" && c.Fin != "batches" && c.Fin != "first" && c.Fin != "last" && len(c.Joins) == 0 && sc.table != "owners" && g.pct("group", 12) {
 		grouped = true
 		gcol := "owner_id"
 		if sc.table == "tags" {
@@ -1018,6 +1018,13 @@ func (g *gen) query() *Chain {
 			c.FindBatch = 1 + g.pick("findbatch", 3) // fewer than the seeded rows: further batches follow
 		}
 		c.Conds = g.conds(sc, g.weighted("nconds", 10, 30, 30, 20, 10), false)
+		for i := range c.Conds {
+			// the "key > last key" condition FindInBatches appends is ANDed to the last condition only: with
+			// a top-level Or the same rows come back for ever (not this property's subject, see COVERAGE.md)
+			if c.Conds[i].Op == "or" {
+				c.Conds[i].Op = "where"
+			}
+		}
 		return c
 	}
 	if !grouped && g.pct("distinct", 8) {
